@@ -17,8 +17,100 @@ pub fn cases(t: Tier) -> u64 {
 
 pub const BUDGET: u64 = 300_000;
 
+/// Known-answer programs over every built-in type constructor (see zoo.rs).
+pub fn run_zoo(out: &mut CaseOut, r: &mut Rng, prop: &str) {
+    use crate::zoo::Expect;
+    use chalk_solve::ext::GoalExt;
+    use chalk_solve::{Guidance, Solution};
+    let interner = chalk_integration::interner::ChalkIr;
+    let z = crate::zoo::gen_zoo(r);
+    for choice in both() {
+        let l = match load(&z.text, choice, false) {
+            Ok(l) => l,
+            Err(e) => {
+                out.inconclusive(&format!("zoo program failed to lower: {}", crate::case::truncate(&e, 80)));
+                return;
+            }
+        };
+        with_program(&l, || {
+            for (g, e) in &z.goals {
+                let goal = match lower_goal_text(&l, g) {
+                    Ok(g) => g,
+                    Err(e) => {
+                        out.inconclusive(&format!("zoo goal failed to lower: {}", crate::case::truncate(&e, 80)));
+                        continue;
+                    }
+                };
+                let peeled = goal.into_peeled_goal(interner);
+                let db = FaultDb::new(&*l.program, solver_name(&choice));
+                db.budget.set(BUDGET);
+                let mut s = choice.into_solver();
+                let a = match solve(&mut *s, &db, &peeled) {
+                    Outcome::Answer(a) => a,
+                    _ => {
+                        out.count("zoo:solve-panicked-or-over-budget(see C09)");
+                        continue;
+                    }
+                };
+                out.evals += 1;
+                let shown = disp(&a);
+                let d = || detail(&z.text, g, &choice).set("answer", shown.as_str()).set("expected", format!("{:?}", e));
+                match (e, &a) {
+                    (Expect::No, Some(Solution::Unique(_))) => out.violation(None, format!("{} answered `{}` for `{}`, which has no solution (the only facts are the two ground impls)", solver_name(&choice), shown, g), d()),
+                    (Expect::No, None) => {
+                        out.count("zoo:no-solution-confirmed");
+                        out.nt(&format!("{}|{}|{}", z.text, g, solver_name(&choice)));
+                    }
+                    (Expect::No, Some(_)) => {
+                        if prop == "C02" && !g.starts_with("exists") && z.max_nodes <= 6 {
+                            out.violation(None, format!("{} answered `{}` for the closed goal `{}`, which is false", solver_name(&choice), shown, g), d());
+                        } else {
+                            out.count("zoo:ambiguous-where-no-solution(not a definite answer)");
+                            if std::env::var("ZOO_DEBUG").is_ok() { eprintln!("AMBIG-N {} | {} | {}\n{}", solver_name(&choice), g, shown, z.text); }
+                        }
+                    }
+                    (Expect::Unique(_), None) => out.violation(None, format!("{} answered `No possible solution` for `{}`, which has exactly one solution", solver_name(&choice), g), d()),
+                    (Expect::Unique(gt), Some(Solution::Unique(c))) => {
+                        let ground = match lower_goal_text(&l, gt) {
+                            Ok(g) => g.into_peeled_goal(interner),
+                            Err(_) => {
+                                out.inconclusive("zoo ground goal failed to lower");
+                                continue;
+                            }
+                        };
+                        let applied = c.value.subst.apply(peeled.canonical.value.clone(), interner);
+                        if !c.binders.is_empty(interner) || applied != ground.canonical.value {
+                            out.violation(None, format!("{} answered `{}` for `{}`, but the only solution is `{}`", solver_name(&choice), shown, g, gt), d());
+                        } else {
+                            out.count(&format!("zoo:unique-confirmed:{}", solver_name(&choice)));
+                            out.nt(&format!("{}|{}|{}", z.text, g, solver_name(&choice)));
+                        }
+                    }
+                    (Expect::Unique(_), Some(Solution::Ambig(Guidance::Definite(_)))) => out.count("zoo:definite-guidance(not compared)"),
+                    (Expect::Unique(_), Some(_)) => {
+                        if prop == "C02" && !g.starts_with("exists") && z.max_nodes <= 6 {
+                            out.violation(None, format!("{} answered `{}` for the closed goal `{}`, which is true", solver_name(&choice), shown, g), d());
+                        } else {
+                            out.count("zoo:ambiguous-where-unique(not a definite answer)");
+                            if std::env::var("ZOO_DEBUG").is_ok() { eprintln!("AMBIG-U {} | {} | {}\n{}", solver_name(&choice), g, shown, z.text); }
+                        }
+                    }
+                }
+            }
+        });
+    }
+    if out.sample.is_none() {
+        out.sample = Some(J::obj().set("program", z.text.as_str()).set("goal", z.goals[0].0.as_str()));
+    }
+}
+
 pub fn run(ctx: &Ctx, out: &mut CaseOut) {
     let mut r = Rng::for_case(ctx.prop, ctx.seed, ctx.k);
+    if ctx.k % 9 == 7 {
+        out.count("fragment:constructor-zoo");
+        run_zoo(out, &mut r, "C01");
+        return;
+    }
     // fragment mix: 40% plain inductive non-increasing, 25% increasing, 35% with coinductive traits
     let mode = ctx.k % 20;
     let cfg = if mode < 8 {
